@@ -429,6 +429,11 @@ pub fn drive(args: &[String]) -> i32 {
             both(&mut jobs, "nesting", format!("{depth} x {open:?}"), text, false);
         }
     }
+    // long runs of what the lexer treats as "more of the same": doubled quotes inside a character string, comment lines
+    for n in [100usize, 2000, 20000] {
+        both(&mut jobs, "nesting", format!("{n} x \"doubled quotes\""), format!("M DEFINITIONS ::= BEGIN v UTF8String ::= \"a{}b\" END", "\"\"".repeat(n)), false);
+        both(&mut jobs, "nesting", format!("{n} x \"comment lines\""), format!("M DEFINITIONS ::= BEGIN {}A ::= INTEGER END", "-- c\n".repeat(n)), false);
+    }
     // 5. reference cycles
     for (ci, c) in cycles.iter().enumerate() {
         both(&mut jobs, "cycle", format!("{} -> {} entry {}", c["kinds"], c["tgt"], c["entry"]), cycle_module(c), ci % 6 == 0);
